@@ -31,10 +31,15 @@ STD_OFFSET_H = {"America/Chicago": -6, "US/Pacific": -8, "Europe/London": 0, "Au
                 "Asia/Kolkata": 5, "UTC": 0,
                 # look-alikes: different zones that share the UTC offset of a catalogue zone (always or in winter)
                 "America/Regina": -6, "America/Vancouver": -8, "Europe/Lisbon": 0, "Australia/Melbourne": 10,
-                "Asia/Colombo": 5, "Atlantic/Reykjavik": 0, "Etc/GMT+6": -6}
+                "Asia/Colombo": 5, "Atlantic/Reykjavik": 0, "Etc/GMT+6": -6,
+                # fixed-offset tzinfo objects (no IANA name)
+                "pytzfixed:-360": -6, "dtfixed:330": 5, "pytzfixed:600": 10, "Australia/Brisbane": 10}
+FIXED_TZS = ["pytzfixed:-360", "dtfixed:330", "pytzfixed:600"]
 LOOKALIKE = {"America/Chicago": ["America/Regina", "Etc/GMT+6"], "US/Pacific": ["America/Vancouver"],
              "Europe/London": ["Europe/Lisbon", "UTC", "Atlantic/Reykjavik"], "Australia/Sydney": ["Australia/Melbourne"],
-             "Asia/Kolkata": ["Asia/Colombo"], "UTC": ["Atlantic/Reykjavik", "Europe/London"]}
+             "Asia/Kolkata": ["Asia/Colombo"], "UTC": ["Atlantic/Reykjavik", "Europe/London"],
+             "pytzfixed:-360": ["Etc/GMT+6", "America/Regina"], "dtfixed:330": ["Asia/Colombo", "Asia/Kolkata"],
+             "pytzfixed:600": ["Australia/Brisbane"]}
 SPANS = {"day": 1, "week": 7, "month": 30, "partial": 150, "full": 365, "long": 400}
 START_DAY = "2015-12-03"
 BLACKOUT_DAYS = 10
@@ -86,13 +91,36 @@ def meter_params(mid: int) -> dict:
         "electric": not (kind in ("heat", "flat") and (mid // 2) % 2 == 1),
         "pv": float(g.uniform(0.0008, 0.002)),
         "zeros": (mid % 3 == 0),   # a few zero readings (electric: the data classes turn them into missing)
+        "lowload": False,
     }
+    special = mid % 16
+    if special == 14:      # heats over the whole temperature range: the fitted balance point sits on the upper limit
+        p.update(kind="heat", hbp=105.0, bh=max(p["bh"], 0.8), bc=0.0, smooth=0.0, electric=True)
+    elif special == 13:    # cools over the whole range: balance point on the lower limit
+        p.update(kind="cool", cbp=-5.0, bc=max(p["bc"], 0.5), bh=0.0, smooth=0.0, electric=True)
+    elif special == 15:    # almost no base load, steep cooling: a linear model undershoots below zero near the kink
+        p.update(kind="cool", base=0.6, bc=2.5, bh=0.0, cbp=66.0, smooth=0.0, electric=True, lowload=True, zeros=False,
+                 noise=0.01)
     return p
+
+
+def tzobj(tz: str):
+    """Catalogue zone label -> what the caller localises with: an IANA name, or a fixed-offset tzinfo OBJECT
+    ("pytzfixed:<minutes>" -> pytz.FixedOffset, "dtfixed:<minutes>" -> datetime.timezone)."""
+    if tz.startswith("pytzfixed:"):
+        import pytz
+
+        return pytz.FixedOffset(int(tz.split(":")[1]))
+    if tz.startswith("dtfixed:"):
+        import datetime as _dt
+
+        return _dt.timezone(_dt.timedelta(minutes=int(tz.split(":")[1])))
+    return tz
 
 
 def _local_days(tz: str, first_day: int, n_days: int) -> pd.DatetimeIndex:
     naive = pd.date_range(pd.Timestamp(START_DAY) + pd.Timedelta(days=first_day), periods=n_days, freq="D")
-    return pd.DatetimeIndex(naive.values).tz_localize(tz)
+    return pd.DatetimeIndex(naive.values).tz_localize(tzobj(tz))
 
 
 def _hourly_index(tz: str, first_day: int, n_days: int) -> pd.DatetimeIndex:
@@ -206,6 +234,14 @@ def _alter_observed(y: np.ndarray, obs: str, g) -> np.ndarray:
             inner = m[1:-1].copy()
             m[1:-1] = np.roll(inner, max(1, len(inner) // 3))
         y[m] = np.nan
+        return y
+    if obs == "monthnan":
+        # an outage: a contiguous block of about a month (a fifth of shorter periods) without any reading
+        y = y * 0.9
+        n = len(y)
+        blk = max(1, min(n // 5, 31 if n <= 800 else 31 * 24))
+        st = n // 3
+        y[st:st + blk] = np.nan
         return y
     if obs == "allnan":
         return np.full(len(y), np.nan)
@@ -343,14 +379,19 @@ def _build_grid(recipe):
     temps = np.asarray(recipe["temps"], dtype="float64")
     tz = recipe["tz"]
     naive = pd.date_range("2017-01-01", periods=len(temps), freq="D")
-    days = pd.DatetimeIndex(naive.values).tz_localize(tz)
+    import zoneinfo
+
+    try:
+        days = pd.DatetimeIndex(naive.values).tz_localize(tzobj(tz))
+    except (zoneinfo.ZoneInfoNotFoundError, Exception):  # a zone label that is no IANA name (str of a tzinfo object)
+        raise ValueError(f"grid: cannot localise to {tz!r}")
     g = np.random.default_rng(_seed("grid", len(temps)))
     y = 10.0 + g.random(len(temps))
     if recipe["fam"] == "daily":
         df = pd.DataFrame({"observed": y, "temperature": temps}, index=days)
         return dict(cls="DailyReportingData", how="init", args=[df], kwargs={"is_electricity_data": True}, inputs=[df])
     # billing: an hourly feed that is constant within each local day, bills of about a month
-    end = (days[-1].tz_localize(None) + pd.Timedelta(days=3)).tz_localize(tz)
+    end = (days[-1].tz_localize(None) + pd.Timedelta(days=3)).tz_localize(tzobj(tz))
     hidx = pd.date_range(days[0], end, freq="h", inclusive="left")
     per_day = pd.Series(temps, index=np.asarray(days.date))
     th = per_day.reindex(np.asarray(hidx.date)).ffill().to_numpy()
@@ -409,7 +450,7 @@ def _billing_ctor(recipe, days, y, temp_series, electric, obs, ga=None):
     if ga is not None and obs not in ("raw", "absent"):
         vals = _alter_observed(vals, obs, ga)
     # final read closes the last period: its own value is never used (NaN convention)
-    end = (days[-1].tz_localize(None) + pd.Timedelta(days=1)).tz_localize(days.tz)
+    end = (days[-1].tz_localize(None) + pd.Timedelta(days=1)).tz_localize(days.tz)  # days.tz is the tzinfo object
     idx = idx.append(pd.DatetimeIndex([end]))
     vals = np.append(vals, np.nan)
     if recipe["entry"] == "series":
